@@ -157,6 +157,13 @@ func (ex *Exec) checkObligation(cond *Term, kind, msg string, pos token.Pos) {
 	switch r {
 	case Sat:
 		ob.Result = "VIOLATED"
+		// prefer a counterexample with small values for unconstrained 64-bit
+		// inputs: it replays natively without giant loops or allocations
+		if small := ex.smallModelHint(); small != "" {
+			if r2, m2, _ := ex.w.hardCheck(ex.pc, conds, ex.symOrder, extra.String()+small); r2 == Sat && m2 != nil {
+				m = m2
+			}
+		}
 		ob.Model = ex.fullModel(m)
 	case Unknown:
 		ob.Result = "unknown"
@@ -242,4 +249,19 @@ func pathHash(d []Decision) uint32 {
 		h = (h ^ uint32(x.Val) ^ uint32(x.Kind)) * 16777619
 	}
 	return h
+}
+
+// smallModelHint returns SMT text restricting every full-range 64-bit input
+// symbol to [-2^17, 2^17] (empty when there is none).
+func (ex *Exec) smallModelHint() string {
+	var sb strings.Builder
+	for _, t := range ex.symOrder {
+		if t.w != 64 || strings.HasPrefix(t.name, "~") {
+			continue
+		}
+		if t.c == 1 && isFullS(t) {
+			fmt.Fprintf(&sb, "(assert (and (bvsle #xfffffffffffe0000 %s) (bvsle %s #x0000000000020000)))\n", symName(t.name), symName(t.name))
+		}
+	}
+	return sb.String()
 }
